@@ -1,6 +1,7 @@
 package main
 
 import (
+	"fmt"
 	"sort"
 
 	gmsl "github.com/matrix-org/gomatrixserverlib"
@@ -146,6 +147,10 @@ func GenHistoryOpt(r *Rng, ver string, size int, oddKeys bool) *History {
 	if !verImpl.PrivilegedCreators() {
 		pl["users"].(map[string]interface{})[creator] = 100
 	}
+	lenient := lenientPowerLevels(verImpl)
+	if lenient && r.Chance(25) {
+		respellLevels(r, pl)
+	}
 	h.Send(r, root, spec.MRoomPowerLevels, creator, sp(""), pl, nextTS())
 	h.Send(r, root, spec.MRoomJoinRules, creator, sp(""), map[string]interface{}{"join_rule": "public"}, nextTS())
 	for _, u := range users[1:4] {
@@ -225,6 +230,9 @@ func GenHistoryOpt(r *Rng, ver string, size int, oddKeys bool) *History {
 					delete(u, creator)
 				}
 			}
+			if lenient && r.Chance(25) {
+				respellLevels(r, np)
+			}
 			h.Send(r, b, spec.MRoomPowerLevels, sender, sp(""), np, nextTS())
 		case 7: // join rules
 			h.Send(r, b, spec.MRoomJoinRules, sender, sp(""), map[string]interface{}{"join_rule": Pick(r, []string{"public", "invite", "knock"})}, nextTS())
@@ -281,4 +289,51 @@ func (h *History) AuthClosure(start []*Ev) []*Ev {
 	}
 	sort.Slice(out, func(i, j int) bool { return out[i].ID < out[j].ID })
 	return out
+}
+
+// lenientPowerLevels: the room version reads levels written as strings or floats (versions before 10, org.matrix.msc3787)
+func lenientPowerLevels(verImpl gmsl.IRoomVersion) bool {
+	var c gmsl.PowerLevelContent
+	c.Defaults()
+	return verImpl.ParsePowerLevels([]byte(`{"ban":"5"}`), &c) == nil
+}
+
+// respellLevels writes some levels of a power-levels content the other ways the lenient parser reads: a decimal string
+// (also padded with blanks) or a float.  The auth rules AND the power ordering of state resolution see the same numbers
+// (seeded change C10-r5m2).
+func respellLevels(r *Rng, pl map[string]interface{}) {
+	re := func(v interface{}) interface{} {
+		var n int64
+		switch t := v.(type) {
+		case int:
+			n = int64(t)
+		case int64:
+			n = t
+		case float64:
+			n = int64(t)
+		default:
+			return v
+		}
+		switch r.Intn(4) {
+		case 0:
+			return fmt.Sprint(n)
+		case 1:
+			return " " + fmt.Sprint(n) + " "
+		case 2:
+			return float64(n)
+		}
+		return v
+	}
+	if u, ok := pl["users"].(map[string]interface{}); ok {
+		for _, k := range sortedKeys(u) { // (map order must not drive the PRNG)
+			if r.Chance(60) {
+				u[k] = re(u[k])
+			}
+		}
+	}
+	for _, k := range []string{"users_default", "state_default", "events_default", "ban", "kick", "invite"} {
+		if v, ok := pl[k]; ok && r.Chance(20) {
+			pl[k] = re(v)
+		}
+	}
 }
